@@ -378,7 +378,16 @@ class World(WsWorld):
                     encode_frame(0, b"\x41" + seq[2:], fin=True, mask=self.mask())]
         if kind == "utf8-truncated":
             seq = ch.pick(("€", "\U0001f600", "é"), "tseq").encode("utf8")
-            return [encode_frame(1, b"ab" + seq[:-1], mask=m)]
+            form = ch.pick(("whole", "empty-final-fragment", "empty-fragments"), "tform", (2, 2, 1))
+            if form == "whole":
+                return [encode_frame(1, b"ab" + seq[:-1], mask=m)]
+            # the message ends inside a multi-byte sequence, and the frame that ends it carries no payload at all
+            self.run.probe("text-cut-inside-code-point-ended-by-empty-frame")
+            out = [encode_frame(1, b"ab" + seq[:-1], fin=False, mask=m)]
+            if form == "empty-fragments":
+                out.append(encode_frame(0, b"", fin=False, mask=self.mask()))
+            out.append(encode_frame(0, b"", fin=True, mask=self.mask()))
+            return out
         # invalid octet late in a long text message, message split over two frames
         return [encode_frame(1, b"x" * 300, fin=False, mask=m), encode_frame(0, b"y" * 200 + b"\xff" + b"z" * 50, mask=self.mask())]
 
